@@ -69,8 +69,8 @@ def dCompCrash : Disk :=
               { id := 7, out := .complete [([1], some [1]), ([2], some [2])], flag := some { inputs := [1, 2], replacement := 1 } }] }
 
 example : DiskOk dCompCrash := by decide
-example : (recoverEvents dCompCrash).length = 18 := by decide
-example : (List.range 19).all (fun m =>
+example : (recoverEvents dCompCrash).length = 16 := by decide
+example : (List.range 17).all (fun m =>
     let dm := applyEvs dCompCrash ((recoverEvents dCompCrash).take m)
     decide (DiskOk dm) && ([[1], [2], [3], [9]].map (logical dm) == [some [5], some [2], none, none])) = true := by decide
 
